@@ -169,6 +169,170 @@ def multiHashLeafList : List STree → Bool
   | t :: r => t.multiHashLeaf || multiHashLeafList r
 end
 
+/-! ### Dispatch of a reported address (stated with C05's model of `rtosc_match_path`) -/
+
+/-- `rtosc_match_path(name, msg, …) != NULL` where `msg` holds the C string `a` followed by
+    whatever else the message contains (`ex`) -/
+def Accepts (name a ex : Bytes) : Prop := ∃ r, Match.path (name ++ [0]) (a ++ 0 :: ex) = .ok r
+
+/-- Level by level: the row of the index path accepts what is left of the address, no other
+    row of the same table does, and for a sub-tree port `*path_end` is where the sub-table's
+    part of the address starts.  (`Ports::dispatch` calls the callback of every row whose
+    pattern accepts the message; the callback of a sub-tree port dispatches the rest to its
+    sub-table.) -/
+def Delivers (only : Bool) (ex : Bytes) : List Nat → List PortT → Bytes → Prop
+  | [], _, _ => False
+  | [i], ps, a =>
+    ∃ p, ps[i]? = some p ∧ p.hasPorts = false ∧ Accepts p.name a ex ∧
+      (only = true → ∀ j q, j ≠ i → ps[j]? = some q → ¬ Accepts q.name a ex)
+  | i :: j :: ix, ps, a =>
+    ∃ p tp rest, ps[i]? = some p ∧ p.hasPorts = true ∧
+      Match.path (p.name ++ [0]) (a ++ 0 :: ex) = .ok (tp, rest ++ 0 :: ex) ∧
+      (only = true → ∀ j' q, j' ≠ i → ps[j']? = some q → ¬ Accepts q.name a ex) ∧
+      Delivers only ex (j :: ix) p.children rest
+
+def STree.name : STree → WName
+  | .leaf w _ => w
+  | .sub w _ _ => w
+
+/-- no address is spelled by both names -/
+def Apart (w v : WName) : Prop := ∀ a, ¬ (PathSpec w.toPat a ∧ PathSpec v.toPat a)
+
+mutual
+/-- in every table of the tree, no two rows answer to a common address -/
+def SiblingsApart : List STree → Prop
+  | ts => (∀ (i j : Nat) (t u : STree), i ≠ j → ts[i]? = some t → ts[j]? = some u → Apart t.name u.name) ∧ kidsApart ts
+def kidsApart : List STree → Prop
+  | [] => True
+  | .leaf _ _ :: r => kidsApart r
+  | .sub _ _ kids :: r => SiblingsApart kids ∧ kidsApart r
+end
+
+/-- decidable sufficient condition for `Apart`: the texts in front of the first '#' are not
+    prefixes of one another -/
+def headsApart (w v : WName) : Bool := !(w.head.isPrefixOf v.head) && !(v.head.isPrefixOf w.head)
+
+/-! ### Runtime pruning -/
+
+/-- the value of the port's "enabled by" property (C17's reader); `none`: no such property -/
+def guardOf (md : Option Bytes) : Option Bytes :=
+  match Meta.portMeta md with
+  | none => none
+  | some m =>
+    match Meta.lookup m ENABLED_BY with
+    | some (some ep) => some ep
+    | _ => none
+
+/-- the metadata block is readable and has no "enabled by" entry -/
+def unguarded (md : Option Bytes) : Bool :=
+  match Meta.portMeta md with
+  | none => false
+  | some m =>
+    match Meta.lookup m ENABLED_BY with
+    | some none => true
+    | _ => false
+
+mutual
+def STree.noGuards : STree → Bool
+  | .leaf _ md => unguarded md
+  | .sub _ md kids => unguarded md && NoGuards kids
+/-- no port of the tree carries an "enabled by" property -/
+def NoGuards : List STree → Bool
+  | [] => true
+  | t :: r => t.noGuards && NoGuards r
+end
+
+mutual
+def definedList (rt : Option Obj) : List STree → Bool
+  | [] => true
+  | t :: r => definedTree rt t && definedList rt r
+def definedTree (rt : Option Obj) : STree → Bool
+  | .leaf _ _ => true
+  | .sub w _ kids =>
+    match rt with
+    | none => true
+    | some obj =>
+      (expandParts w.parts).all fun a =>
+        match obj.kid (w.head ++ a ++ [47]) with
+        | none => false
+        | some none => true
+        | some (some c) => definedList (some c) kids
+end
+
+/-- the runtime object says, for every sub-tree port the walk asks about, whether its child
+    object is NULL or which object it is -/
+def RuntimeDefined (ts : List STree) (rt : Option Obj) : Prop := definedList rt ts = true
+
+instance (ts : List STree) (rt : Option Obj) : Decidable (RuntimeDefined ts rt) := by
+  unfold RuntimeDefined; infer_instance
+
+mutual
+/-- `codeList` without the sub-trees whose object pointer is NULL; below a visited sub-tree
+    port the walk goes on with that port's child object -/
+def prunedList (pre : Bytes) (path : List Nat) (rt : Option Obj) : List STree → Nat → List Call
+  | [], _ => []
+  | t :: r, i => prunedTree pre (path ++ [i]) rt t ++ prunedList pre path rt r (i + 1)
+def prunedTree (pre : Bytes) (ix : List Nat) (rt : Option Obj) : STree → List Call
+  | .leaf w _ => (expandFirst w.parts).map fun a => (ix, pre ++ w.head ++ a ++ slashIf w.slash)
+  | .sub w _ kids =>
+    (expandParts w.parts).flatMap fun a =>
+      match rt with
+      | none => prunedList (pre ++ w.head ++ a ++ [47]) ix none kids 0
+      | some obj =>
+        match obj.kid (w.head ++ a ++ [47]) with
+        | some (some c) => prunedList (pre ++ w.head ++ a ++ [47]) ix (some c) kids 0
+        | _ => []
+end
+
+/-- is the thing guarded by `md` switched on?  (no guard: yes; undefined toggle: no) -/
+def guardOn (obj : Obj) (md : Option Bytes) : Bool :=
+  match guardOf md with
+  | none => true
+  | some ep => obj.toggle ep == some true
+
+/-- the test of a table's own `self:` port in front of its rows: if it is switched off, only
+    the enabling toggle itself is reported (ports.cpp: "an enabling port must always be
+    traversed") -/
+def tableGate (tab : List PortT) (path : List Nat) (pre : Bytes) (rt : Option Obj) (body : List Call) : List Call :=
+  match rt with
+  | none => body
+  | some obj =>
+    match (index tab SELF).bind (tab[·]?) with
+    | none => body
+    | some sp =>
+      match guardOf sp.metadata with
+      | none => body
+      | some ep =>
+        if obj.toggle ep == some true then body
+        else match index tab ep with
+          | some k => [(path ++ [k], pre ++ ep)]
+          | none => []
+
+mutual
+/-- the full pruning clause: NULL pointers and "enabled by" toggles (a sub-tree port's toggle
+    is a row of the same table; a table's own toggle is named by its `self:` port) -/
+def fullList (pre : Bytes) (path : List Nat) (rt : Option Obj) : List STree → Nat → List Call
+  | [], _ => []
+  | t :: r, i => fullTree pre (path ++ [i]) rt t ++ fullList pre path rt r (i + 1)
+def fullTree (pre : Bytes) (ix : List Nat) (rt : Option Obj) : STree → List Call
+  | .leaf w _ => (expandParts w.parts).map fun a => (ix, pre ++ w.head ++ a ++ slashIf w.slash)
+  | .sub w md kids =>
+    (expandParts w.parts).flatMap fun a =>
+      match rt with
+      | none => fullList (pre ++ w.head ++ a ++ [47]) ix none kids 0
+      | some obj =>
+        match obj.kid (w.head ++ a ++ [47]) with
+        | some (some c) =>
+          if guardOn obj md then
+            tableGate (toPorts kids) ix (pre ++ w.head ++ a ++ [47]) (some c)
+              (fullList (pre ++ w.head ++ a ++ [47]) ix (some c) kids 0)
+          else []
+        | _ => []
+end
+
+def prunedFull (pre : Bytes) (path : List Nat) (tab : List PortT) (ts : List STree) (rt : Option Obj) : List Call :=
+  tableGate tab path pre rt (fullList pre path rt ts 0)
+
 /-! ### Buffer size -/
 
 def maxLen : List Bytes → Nat
